@@ -455,6 +455,28 @@ func GenC10(seed uint64) *Scenario {
 				n++
 			}
 		}
+		// a long-lived session and 2^32 records later: the counter is moved to the value that makes the
+		// next record number congruent (mod 2^32) to the one of a live session, and that session's
+		// subscriber and consumer create again
+		if len(live) > 0 && g.r.Chance(200) {
+			k := g.r.Intn(len(live))
+			var victim *Op
+			cnt := g.sc.Cfg.CounterStart
+			for i := range ops {
+				if ops[i].Kind == "create" {
+					cnt++
+					if ops[i].Sess == live[k].name {
+						victim = &ops[i]
+						break
+					}
+				}
+			}
+			if victim != nil {
+				ops = append(ops, Op{ID: g.id(), Kind: "ctrset", TopUp: int64(cnt) + (1 << 32) - 1})
+				ops = append(ops, Op{ID: g.id(), Kind: "create", Supi: victim.Supi, Sess: "wrap", Consumer: victim.Consumer, ChargingID: 4242})
+				live = append(live, &sessState{name: "wrap", supi: victim.Supi})
+			}
+		}
 		// finally address every live reference once more
 		for _, s := range live {
 			ops = append(ops, Op{ID: g.id(), Kind: "update", Supi: s.supi, Sess: s.name,
@@ -584,7 +606,8 @@ func GenC18(seed uint64) *Scenario {
 	}
 	silent := []int{0, 0, 30, 100}[g.r.Intn(4)] // permille of updates that name a rating group nobody provisioned: both peers stay silent
 	lossy := []int{0, 0, 20}[g.r.Intn(3)]       // permille of updates whose first credit answer is lost
-	g.sc.Shape += fmt.Sprintf(" silent=%d lossy=%d", silent, lossy)
+	restarts := []int{0, 0, 50, 200}[g.r.Intn(4)] // permille of updates during which a peer closes the connection right after the handshake
+	g.sc.Shape += fmt.Sprintf(" silent=%d lossy=%d restarts=%d", silent, lossy, restarts)
 	for i := 0; i < n; i++ {
 		s := 1 + g.r.Intn(nSub)
 		rg := int32(1)
@@ -593,7 +616,7 @@ func GenC18(seed uint64) *Scenario {
 		}
 		op := Op{ID: g.id(), Kind: "update", Supi: supiN(s), Sess: fmt.Sprintf("s%d", s),
 			Units: []Unit{{RG: rg, Req: int32(100 + g.r.Intn(100)), Containers: []Container{g.online(1000)}}}}
-		if rg == 1 && g.r.Chance(lossy) {
+		if rg == 1 && g.r.Chance(restarts) {
 			// the peer restarts right after the capabilities exchange: the request cannot be written
 			g.sc.Faults = append(g.sc.Faults, simnet.Fault{Peer: []string{"rf", "abmf"}[g.r.Intn(2)], Task: 0, Op: op.ID, Dir: "ans",
 				Cmd: 257, Nth: g.r.Intn(2), Kind: simnet.KCloseAfter})
